@@ -1,6 +1,7 @@
 """Property registry: which rules decide which property, on which feature sets, and the
 Decided / Not decided texts repeated in the evidence and the manifest."""
 import r_iface
+import r_formula
 from engine import on_build
 import r_serde
 import r_wrap
@@ -47,7 +48,7 @@ NOT_APPLICABLE = {
 
 PROPS = {
     'C05': dict(
-        rules=[r_tables.s06_ma_dispatch, r_step.s07_step_once,
+        rules=[r_tables.s06_ma_dispatch, r_step.s07_step_once, r_formula.s07t_true_range_reference,
                lambda ctx: r_mirror.s04_mirror_siblings(ctx, which=('highest_lowest::Highest', 'highest_lowest_index::HighestIndex'))],
         feature_sets=_sets(['default'], ['default', 'ci']),
         rules_thorough=[on_build(r_tables.s06_ma_dispatch, 'ci'), on_build(r_step.s07_step_once, 'ci')],
@@ -55,7 +56,7 @@ PROPS = {
                      'type held by the same-named MAInstance variant from that arm\'s own period and wraps exactly that instance; '
                      'MAInstance::next steps that payload with the input value and returns it; ma_period returns the arm\'s payload; '
                      'ma_type codes are pairwise distinct; from_str maps exactly lowercase(kind) to the kind with the parsed period and '
-                     'rejects everything else. Decided by enumerating every path of the five functions on MIR.'),
+                     'rejects everything else. Decided by enumerating every path of the five functions on MIR. (S07t) every true range computed in a step function (TR, ADX, Keltner, ChandeKrollStop) is taken against a state field whose every write stores close() of the current input: the reference is the previous candle\'s close, not another series and not a candle popped from a window.'),
         not_decided=['the formulas themselves (which source, operator and period feed which average) are numeric behaviour: not decided',
                      'S07 does not see a wrong argument handed to a step'],
         assumptions=TRUST,
